@@ -110,7 +110,91 @@ fn gen_length_sweep(ctx: &GenCtx, i: u64, local: bool) -> Option<Option<Run>> {
     None
 }
 
+/// Counter carry in the AES-CTR protocols (v1.local, v3.local): a long message whose initial counter block
+/// has its low 32 bits so close to 2^32 that the increment carries into the next word inside the message.
+/// The counter block is derived (v1: from HMAC-SHA384(nonce seed, message); v3: from HKDF(key, nonce)), so
+/// the harness searches - with its own HMAC - a message suffix (v1) / a nonce (v3) that lands there; with
+/// about 2^-18 per attempt no sampled run ever would.  If the search derivation were wrong the run would
+/// merely be an ordinary long round trip.
+const CARRY_RUN_FIRST: u64 = 1000;
+fn gen_ctr_carry(ctx: &GenCtx, i: u64) -> Option<Run> {
+    use hmac::{Hmac, Mac};
+    type H = Hmac<sha2::Sha384>;
+    if !(CARRY_RUN_FIRST..CARRY_RUN_FIRST + 4).contains(&i) {
+        return None;
+    }
+    let proto = if (i - CARRY_RUN_FIRST) % 2 == 0 { Proto::V1L } else { Proto::V3L };
+    if !proto.available() {
+        return None;
+    }
+    let mut r = run_rng(ctx, "C01-carry", i);
+    let key_bytes = r.bytes(32);
+    let blocks: u32 = 16384; // 256 KiB
+    let len = blocks as usize * 16;
+    let window = blocks / 4 * 3;
+    let prefix = "a".repeat(len - 16);
+    let mut nonce = r.bytes(32);
+    let mut message = String::new();
+    let mut found = false;
+    match proto {
+        Proto::V1L => {
+            let mut mac = H::new_from_slice(&nonce).ok()?;
+            mac.update(prefix.as_bytes());
+            for c in 0..4_000_000u64 {
+                let suffix = format!("{:016}", c);
+                let mut m = mac.clone();
+                m.update(suffix.as_bytes());
+                let out = m.finalize().into_bytes();
+                let low = u32::from_be_bytes([out[28], out[29], out[30], out[31]]);
+                if low > u32::MAX - window {
+                    message = format!("{}{}", prefix, suffix);
+                    found = true;
+                    break;
+                }
+            }
+        }
+        _ => {
+            let mut ext = H::new_from_slice(&[]).ok()?;
+            ext.update(&key_bytes);
+            let prk = ext.finalize().into_bytes();
+            let base = H::new_from_slice(&prk).ok()?;
+            for c in 0..4_000_000u64 {
+                nonce[24..32].copy_from_slice(&c.to_be_bytes());
+                let mut m = base.clone();
+                m.update(b"paseto-encryption-key");
+                m.update(&nonce);
+                m.update(&[1u8]);
+                let out = m.finalize().into_bytes();
+                let low = u32::from_be_bytes([out[44], out[45], out[46], out[47]]);
+                if low > u32::MAX - window {
+                    message = format!("{}{:016}", prefix, c);
+                    found = true;
+                    break;
+                }
+            }
+        }
+    }
+    if !found {
+        return None;
+    }
+    let mut rb = RunBuilder::new("C01", "deliver-clean/ctr-carry", ctx.verif_seed, i);
+    let now = gen_now(&mut r);
+    let key = rb.key(KeySpec::Sym { hex: hex::encode(&key_bytes) });
+    let footer = if i >= CARRY_RUN_FIRST + 2 { Some("kid-7".to_string()) } else { None };
+    let out = rb.msg();
+    rb.push(Op::CoreIssue { proto, key, nonce_hex: hex::encode(&nonce), payload: message, footer: footer.clone(), assertion: None, out, order: 0, rebuild: false });
+    let t = TokenDesc { msg: out, proto, layer: Layer::Core, key, footer, assertion: None, issued_at: now, builder: None };
+    let v = rb.verifier(plain_spec(&t, Layer::Core));
+    rb.deliver(out, v, now + 1_000_000);
+    Some(rb.finish())
+}
+
 fn gen(ctx: &GenCtx, i: u64, local: bool) -> Option<Run> {
+    if local {
+        if let Some(run) = gen_ctr_carry(ctx, i) {
+            return Some(run);
+        }
+    }
     if let Some(run) = gen_length_sweep(ctx, i, local) {
         return run;
     }
